@@ -590,6 +590,16 @@ NEST = [
      'nu1 nu2 nu3 nu1 nu2 nu3 T1 T2'),
     ('admix_origin_no_mig', 'nu1 nu2 nu3 T1 T2 f', 'admix_origin_sym_mig_adj', 'nu1 nu2 nu3 0 0 T1 T2 f'),
     ('admix_origin_no_mig', 'nu1 nu2 nu3 T1 T2 f', 'admix_origin_uni_mig_adj', 'nu1 nu2 nu3 0 0 T1 T2 f'),
+    ('sim_split_refugia_sym_mig_adjacent_size', 'nu1a nu2a nu3a nu1b nu2b nu3b m1 m2 0 0 T', 'sim_split_sym_mig_adjacent',
+     'nu1b nu2b nu3b m1 m2 T'),
+    ('sim_split_refugia_sym_mig_adjacent_size', 'nu1a nu2a nu3a nu1b nu2b nu3b m1 m2 0 T 0', 'sim_split_sym_mig_adjacent',
+     'nu1a nu2a nu3a m1 m2 T'),
+    # zero admixture: the admixture event with f = 0 is the plain split / no event at all
+    ('admix_origin_no_mig', 'nu1 nu2 nu3 T1 T2 0', 'split_nomig', 'nu1 nu2 nu2 nu3 T1 T2'),
+    ('admix_origin_sym_mig_adj', 'nu1 nu2 nu3 m2 m3 T1 T2 0', 'refugia_adj_2_var_sym', 'nu1 nu2 nu2 nu3 m2 m3 T1 T2'),
+    ('admix_origin_uni_mig_adj', 'nu1 nu2 nu3 m32 m31 T1 T2 0', 'refugia_adj_2_var_uni', 'nu1 nu2 nu2 nu3 m32 m31 T1 T2'),
+    ('vic_no_mig_admix_early', 'T s 0', 'vic_no_mig', 'T s'),
+    ('vic_no_mig_admix_late', 'T s 0', 'vic_no_mig', 'T s'),
     # ---- growth models at constant size (function-of-time drivers / C kernels vs constant-parameter drivers)
     ('growth', '1 T', 'two_epoch', '1 T'),
     ('bottlegrowth_1d', 'nu nu T', 'two_epoch', 'nu T'),
